@@ -6,7 +6,8 @@ from .cctypes import T
 from .prog import CB, single_graph
 
 MODES = ["simple", "depth_default", "depth_extreme"]
-OUTSIDE = ["bit-level protocols (A2B/B2A/private MixedMultiply/compiled Sort) at scalar widths above 8 bits (16 thorough)",
+OUTSIDE = ["wide-type instances on which the solver gives no answer within the cap while the 8-bit instances of the same template are unsat are printed as NOT-DECIDED, counted under not_decided_wide_instances and are not part of the claim",
+           "bit-level protocols (A2B/B2A/private MixedMultiply/compiled Sort) at scalar widths above 8 bits (16 thorough)",
            "array shapes above 8 elements, rank above 3, composition depth above 6",
            "Truncate (C05), Join (not applicable, see DESIGN §6), custom ops with approximate semantics (C20)"]
 
